@@ -268,6 +268,32 @@ def str_find(M, ctx, s, pat):
     r = find_from(M, v, mt, fl)
     return some(r[0]) if r else NONE()
 
+@model(S + 'match_indices')
+def str_match_indices(M, ctx, s, pat):
+    v = as_str(M, s)
+    mt, fl = make_matcher(M, pat, ctx)
+    def gen():
+        pos = 0
+        while pos <= len(v):
+            r = find_from(M, v, mt, fl, pos) if pos < len(v) else None
+            if r is None: return
+            yield Tup([r[0], Str(v.buf, v.s + r[0], v.s + r[0] + r[1])])
+            pos = r[0] + max(r[1], 1)
+    return Iter(gen(), 'match_indices')
+
+@model(S + 'matches')
+def str_matches(M, ctx, s, pat):
+    v = as_str(M, s)
+    mt, fl = make_matcher(M, pat, ctx)
+    def gen():
+        pos = 0
+        while pos < len(v):
+            r = find_from(M, v, mt, fl, pos)
+            if r is None: return
+            yield Str(v.buf, v.s + r[0], v.s + r[0] + r[1])
+            pos = r[0] + max(r[1], 1)
+    return Iter(gen(), 'matches')
+
 @model(S + 'rfind')
 def str_rfind(M, ctx, s, pat):
     v = as_str(M, s)
